@@ -47,6 +47,9 @@ def _load_spec_env():
     return env
 
 
+FIXUPS = {}
+
+
 class NContract:
     def __init__(self):
         self.requires = []
@@ -60,6 +63,7 @@ class NContract:
         self.props = []
         self.native = {}
         self.known = []
+        self.refines = []
 
 
 def parse_sidecars(directory):
@@ -76,7 +80,7 @@ def parse_sidecars(directory):
             if isinstance(node, ast.Assign) and getattr(node.targets[0], 'id', None) == 'FILE':
                 default_file = ast.literal_eval(node.value)
             elif isinstance(node, ast.Expr) and isinstance(node.value, ast.Call) and \
-                    isinstance(node.value.func, ast.Name) and node.value.func.id in ('fields', 'invariant'):
+                    isinstance(node.value.func, ast.Name) and node.value.func.id in ('fields', 'invariant', 'fixup'):
                 call = node.value
                 vals = []
                 for a in call.args:
@@ -88,7 +92,9 @@ def parse_sidecars(directory):
                     rel, cname, skip = vals[0], vals[1], 2
                 else:
                     rel, cname, skip = default_file, vals[0], 1
-                if call.func.id == 'fields':
+                if call.func.id == 'fixup':
+                    FIXUPS.setdefault((rel, cname), []).append(vals[skip])
+                elif call.func.id == 'fields':
                     d = fields.setdefault((rel, cname), {})
                     for k in call.keywords:
                         d[k.arg] = k.value
@@ -136,6 +142,8 @@ def parse_sidecars(directory):
                                     c.native[k.arg] = k.value
                             elif n == 'known':
                                 c.known.append(call)
+                            elif n == 'refines':
+                                c.refines.append(ast.literal_eval(call.args[0]))
                         ident = rel + '::' + qual
                         if c.for_class:
                             ident += '@' + c.for_class
@@ -143,6 +151,18 @@ def parse_sidecars(directory):
                             ident += '#' + c.label
                         c.ident = ident
                         out[ident] = c
+    for c in list(out.values()):
+        for ref in c.refines:
+            rel, qual = (ref.split('::') if '::' in ref else (c.relpath, ref))
+            base = out.get(rel + '::' + qual)
+            if base is None:
+                continue
+            c.requires = list(base.requires) + c.requires
+            c.ensures = list(base.ensures) + c.ensures
+            c.raises = c.raises + list(base.raises)
+            for k, v in base.params.items():
+                if c.params.get(k) is None:
+                    c.params[k] = v
     return out, fields, invariants
 
 
@@ -168,7 +188,33 @@ class OldRewriter(ast.NodeTransformer):
 _CODE = {}
 
 
+_GHOST = None
+
+
+def ghost_names():
+    """spec functions marked @uninterpreted: ghost predicates with no executable meaning"""
+    global _GHOST
+    if _GHOST is None:
+        _GHOST = set()
+        spec_dir = os.path.join(VERIF_ROOT, 'spec')
+        for fn in os.listdir(spec_dir):
+            if fn.endswith('.py'):
+                tree = ast.parse(open(os.path.join(spec_dir, fn)).read())
+                for n in tree.body:
+                    if isinstance(n, ast.FunctionDef) and any(
+                            isinstance(d, ast.Name) and d.id == 'uninterpreted' for d in n.decorator_list):
+                        _GHOST.add(n.name)
+    return _GHOST
+
+
+def mentions_ghost(expr):
+    g = ghost_names()
+    return any(isinstance(n, ast.Name) and n.id in g for n in ast.walk(expr))
+
+
 def ev(expr, genv, env, pre_env=None):
+    if mentions_ghost(expr):
+        return True               # clause about a ghost predicate: not executable, skipped natively
     key = id(expr)
     ent = _CODE.get(key)
     if ent is None:
@@ -395,6 +441,16 @@ def gen_value(ty, rnd, mod, fields_decl, depth=0):
             rel, name = [ast.literal_eval(a) for a in ty.args]
             m = importlib.import_module(rel[:-3].replace('/', '.').replace('.__init__', ''))
             return getattr(m, name)
+        if n == 'Map':
+            kk = ast.literal_eval(ty.args[0])
+            kty = {'int': ast.Name('Int'), 'str': ast.Name('Str'), 'bytes': ast.Name('Bytes'), 'val': ast.Name('Int')}[kk]
+            d = {}
+            for _ in range(rnd.randrange(4)):
+                try:
+                    d[gen_value(kty, rnd, mod, fields_decl, depth)] = gen_value(ty.args[1], rnd, mod, fields_decl, depth + 1)
+                except TypeError:
+                    pass
+            return d
         if n in ('Obj', 'Exc'):
             vals = [ast.literal_eval(a) for a in ty.args]
             if len(vals) == 2:
@@ -413,7 +469,48 @@ def class_relpath(cls):
     return f[i:]
 
 
+def is_abstract_class(cls):
+    return cls.__name__ in ('Type', 'BaseType') or cls.__name__.endswith('Mixin')
+
+
+def leaf_subclasses(cls, fields_decl):
+    m = sys.modules[cls.__module__]
+    out = []
+    for v in vars(m).values():
+        if isinstance(v, type) and issubclass(v, cls) and v is not cls and v.__module__ == cls.__module__ \
+                and not is_abstract_class(v) and v.__name__ in ('Boolean', 'Integer', 'Null', 'Enumerated', 'Real',
+                                                                  'ObjectIdentifier'):
+            out.append(v)
+    return out
+
+
+def check_invariants_of(o, invs, genv):
+    for c2 in type(o).__mro__:
+        if c2.__module__.startswith('asn1tools'):
+            for inv in invs.get((class_relpath(c2), c2.__name__), []):
+                try:
+                    if not ev(inv, genv, {'self': o}):
+                        return False
+                except Exception:
+                    return False
+    return True
+
+
+_INVS = {}
+
+
 def gen_object(cls, rnd, fields_decl, depth=0):
+    if is_abstract_class(cls) and depth > 0:
+        leaves = leaf_subclasses(cls, fields_decl)
+        if leaves:
+            g = dict(load_spec_env())
+            g['implies'] = lambda a, b: (not a) or b
+            for _ in range(30):
+                o = gen_object(rnd.choice(leaves), rnd, fields_decl, depth)
+                g2 = dict(g); g2.update(vars(sys.modules[type(o).__module__]))
+                if check_invariants_of(o, _INVS, g2):
+                    return o
+            raise NotImplementedError('no instance of %s satisfying its invariant found' % cls.__name__)
     o = cls.__new__(cls)
     decl = {}
     for c in reversed(cls.__mro__):
@@ -422,12 +519,17 @@ def gen_object(cls, rnd, fields_decl, depth=0):
     m = sys.modules[cls.__module__]
     for k, ty in decl.items():
         setattr(o, k, gen_value(ty, rnd, m, fields_decl, depth + 1))
+    for c in reversed(cls.__mro__):
+        if c.__module__.startswith('asn1tools'):
+            for code in FIXUPS.get((class_relpath(c), c.__name__), []):
+                exec(code, dict(vars(sys.modules[c.__module__])), {'self': o, 'rnd': rnd})
     return o
 
 
 def run_crosscheck(repo_root, contracts_dir, idents, n, seed, time_limit=5, classmap=None):
     """bounded stand-in: n generated inputs per contract; returns JSON-able report"""
     cs, fields_decl, invs = parse_sidecars(contracts_dir)
+    _INVS.clear(); _INVS.update(invs)
     genv = {'implies': lambda a, b: (not a) or b}
     report = {}
     classmap = classmap or {}
